@@ -73,7 +73,7 @@ def one(args):
             if got is None:
                 broken.append("<timeout or no junit>")
                 break
-            mine = [n for n in stable if n.split("::")[0].split(".")[-1] in group]
+            mine = [n for n in stable if n.split("::")[0].split(".")[1] in group]
             broken += [n for n in mine if got.get(n) != "pass"]
             if broken:
                 break
